@@ -31,13 +31,17 @@ impl Drop for PullSocket {
 #[async_trait]
 impl Socket for PullSocket {
     fn with_options(options: SocketOptions) -> Self {
-        let fair_queue = FairQueue::new(true);
+        let mut fair_queue = FairQueue::new(true);
+        let backend = Arc::new(GenericSocketBackend::with_options(
+            Some(fair_queue.inner()),
+            SocketType::PULL,
+            options,
+        ));
+        // A peer that closes its connection is forgotten like one whose connection fails.
+        let ended = backend.clone();
+        fair_queue.on_stream_end(move |peer_id| ended.peer_disconnected(peer_id));
         Self {
-            backend: Arc::new(GenericSocketBackend::with_options(
-                Some(fair_queue.inner()),
-                SocketType::PULL,
-                options,
-            )),
+            backend,
             fair_queue,
             binds: HashMap::new(),
         }
